@@ -31,6 +31,15 @@ DecoderComplete.vos DecoderComplete.vok DecoderComplete.required_vos: DecoderCom
 Cache.vo Cache.glob Cache.v.beautified Cache.required_vo: Cache.v Base.vo Fields.vo SrcFacts.vo Msg.vo SrcDecisions.vo
 Cache.vio: Cache.v Base.vio Fields.vio SrcFacts.vio Msg.vio SrcDecisions.vio
 Cache.vos Cache.vok Cache.required_vos: Cache.v Base.vos Fields.vos SrcFacts.vos Msg.vos SrcDecisions.vos
+Sim.vo Sim.glob Sim.v.beautified Sim.required_vo: Sim.v Base.vo Fields.vo SrcFacts.vo Msg.vo
+Sim.vio: Sim.v Base.vio Fields.vio SrcFacts.vio Msg.vio
+Sim.vos Sim.vok Sim.required_vos: Sim.v Base.vos Fields.vos SrcFacts.vos Msg.vos
+Prober.vo Prober.glob Prober.v.beautified Prober.required_vo: Prober.v Base.vo Fields.vo SrcFacts.vo Msg.vo SrcDecisions.vo Sim.vo
+Prober.vio: Prober.v Base.vio Fields.vio SrcFacts.vio Msg.vio SrcDecisions.vio Sim.vio
+Prober.vos Prober.vok Prober.required_vos: Prober.v Base.vos Fields.vos SrcFacts.vos Msg.vos SrcDecisions.vos Sim.vos
+ProberProofs.vo ProberProofs.glob ProberProofs.v.beautified ProberProofs.required_vo: ProberProofs.v Base.vo Fields.vo SrcFacts.vo Msg.vo SrcDecisions.vo Sim.vo Prober.vo CacheProofs.vo
+ProberProofs.vio: ProberProofs.v Base.vio Fields.vio SrcFacts.vio Msg.vio SrcDecisions.vio Sim.vio Prober.vio CacheProofs.vio
+ProberProofs.vos ProberProofs.vok ProberProofs.required_vos: ProberProofs.v Base.vos Fields.vos SrcFacts.vos Msg.vos SrcDecisions.vos Sim.vos Prober.vos CacheProofs.vos
 CacheSpec.vo CacheSpec.glob CacheSpec.v.beautified CacheSpec.required_vo: CacheSpec.v Base.vo Fields.vo SrcFacts.vo Msg.vo Cache.vo
 CacheSpec.vio: CacheSpec.v Base.vio Fields.vio SrcFacts.vio Msg.vio Cache.vio
 CacheSpec.vos CacheSpec.vok CacheSpec.required_vos: CacheSpec.v Base.vos Fields.vos SrcFacts.vos Msg.vos Cache.vos
@@ -49,6 +58,9 @@ Properties_C18.vos Properties_C18.vok Properties_C18.required_vos: Properties_C1
 Properties_C03.vo Properties_C03.glob Properties_C03.v.beautified Properties_C03.required_vo: Properties_C03.v Base.vo Fields.vo SrcFacts.vo Msg.vo Decoder.vo DecoderSafety.vo
 Properties_C03.vio: Properties_C03.v Base.vio Fields.vio SrcFacts.vio Msg.vio Decoder.vio DecoderSafety.vio
 Properties_C03.vos Properties_C03.vok Properties_C03.required_vos: Properties_C03.v Base.vos Fields.vos SrcFacts.vos Msg.vos Decoder.vos DecoderSafety.vos
+Properties_C07.vo Properties_C07.glob Properties_C07.v.beautified Properties_C07.required_vo: Properties_C07.v Base.vo Fields.vo SrcFacts.vo Msg.vo SrcDecisions.vo Sim.vo Prober.vo ProberProofs.vo
+Properties_C07.vio: Properties_C07.v Base.vio Fields.vio SrcFacts.vio Msg.vio SrcDecisions.vio Sim.vio Prober.vio ProberProofs.vio
+Properties_C07.vos Properties_C07.vok Properties_C07.required_vos: Properties_C07.v Base.vos Fields.vos SrcFacts.vos Msg.vos SrcDecisions.vos Sim.vos Prober.vos ProberProofs.vos
 Properties_C01.vo Properties_C01.glob Properties_C01.v.beautified Properties_C01.required_vo: Properties_C01.v Base.vo Fields.vo SrcFacts.vo Msg.vo Decoder.vo Encoder.vo
 Properties_C01.vio: Properties_C01.v Base.vio Fields.vio SrcFacts.vio Msg.vio Decoder.vio Encoder.vio
 Properties_C01.vos Properties_C01.vok Properties_C01.required_vos: Properties_C01.v Base.vos Fields.vos SrcFacts.vos Msg.vos Decoder.vos Encoder.vos
